@@ -36,5 +36,5 @@ func TestVerif(t *testing.T) {
 }
 
 func jobs(tier string) []driver.Job {
-	return append(titleJobs(tier), tarJobs(tier)...)
+	return append(append(titleJobs(tier), restoreJobs(tier)...), tarJobs(tier)...)
 }
